@@ -826,7 +826,8 @@ def gen_partition(rng, I, max_docs=6):
     for k, (url, s, blks) in enumerate(xdocs):
         only_included = dependents[k] and all(xdocs[d][2][0].ns == blks[0].ns for d in dependents[k])
         plain = all(t[0] == "b" for b in blks for _, fs in (b.types + b.elems) for _, t in fs)
-        if only_included and plain and not s.refs and rng.random() < 0.5:
+        used_inline = any(is_x[j] and block_x[j] == k for b in inline_blocks for j in b.deps)
+        if only_included and plain and not s.refs and not used_inline and rng.random() < 0.5:
             s.tns = None
             L.shape["chameleon"] = True
     # --- inline schemas (in document di)
@@ -850,8 +851,7 @@ def gen_partition(rng, I, max_docs=6):
                             continue
                         seen.append(("x", t))
                         dependents[t].add("inline")
-                        if xdocs[t][2][0].ns == g[0].ns and xdocs[t][1].tns is not None or \
-                                xdocs[t][1].tns is None:
+                        if xdocs[t][2][0].ns == g[0].ns:
                             s.refs.append(("include", (wdocs[di].url, xdocs[t][0])))
                         else:
                             s.refs.append(("import", I.nss[xdocs[t][2][0].ns], (wdocs[di].url, xdocs[t][0])))
@@ -1022,6 +1022,8 @@ def gen_partition(rng, I, max_docs=6):
     for url, s, blks in xdocs:
         L.docs[url] = XDoc(url, s).render(nsdecl)
     L.root = wdocs[0].url
+    if shadowed({u: parse_doc(d) for u, d in L.docs.items()}):
+        return None
     L.single = single_document(I)
     p = rng.choice([0.0, 0.3, 0.3, 1.0])
     for u in L.docs:
@@ -1032,3 +1034,634 @@ def gen_partition(rng, I, max_docs=6):
                     "wimp_x": sum(len(v) for v in wimp_x.values())})
     L.desc = "partition %d docs (%d wsdl, %d xsd) style=%s" % (len(L.docs), len(wdocs), len(xdocs), style)
     return L
+
+
+# ---------------------------------------------------------------------------
+# documents as the model sees them (read with expat, not with suds)
+# ---------------------------------------------------------------------------
+
+class PDoc(object):
+    """kind 'W': imports = [location], types = [[(tns, refs)]];  kind 'X':
+    schema = (tns, refs);  kind 'B': not well-formed.
+    refs: ('import', ns|None, loc|None) | ('include', loc)"""
+
+    def __init__(self, kind):
+        self.kind = kind
+        self.imports = []
+        self.types = []
+        self.schema = None
+
+
+def _schema_of(node):
+    refs = []
+    for c in node.elements():
+        if c.ns != XSD:
+            continue
+        if c.name == "import":
+            refs.append(("import", c.attrs.get((None, "namespace")), c.attrs.get((None, "schemaLocation"))))
+        elif c.name == "include":
+            refs.append(("include", c.attrs.get((None, "schemaLocation"))))
+    return (node.attrs.get((None, "targetNamespace")), refs)
+
+
+def parse_doc(data):
+    from . import sudsutil
+    import xml.parsers.expat
+    try:
+        root = sudsutil.expat_parse(data)
+    except xml.parsers.expat.ExpatError:
+        return PDoc("B")
+    if root.ns == WSDLNS and root.name == "definitions":
+        d = PDoc("W")
+        for c in root.elements():
+            if c.ns != WSDLNS:
+                continue
+            if c.name == "import":
+                d.imports.append(c.attrs.get((None, "location")))
+            elif c.name == "types":
+                d.types.append([_schema_of(s) for s in c.elements() if s.ns == XSD and s.name == "schema"])
+        return d
+    if root.ns == XSD and root.name == "schema":
+        d = PDoc("X")
+        d.schema = _schema_of(root)
+        return d
+    return PDoc("O")
+
+
+def py_join(base, loc):
+    """What the property means by a relative location: RFC 3986 resolution
+    against the URL of the document containing the reference."""
+    return loc if "://" in loc else urljoin(base, loc)
+
+
+def doc_refs(url, pd):
+    """All (kind, target url) references of a document, resolved against its own URL."""
+    out = []
+    if pd.kind == "W":
+        for l in pd.imports:
+            out.append(("wimp", py_join(url, l)))
+        for t in pd.types:
+            for tns, refs in t:
+                for r in refs:
+                    if r[-1] is not None:
+                        out.append((r[0], py_join(url, r[-1])))
+    elif pd.kind == "X":
+        for r in pd.schema[1]:
+            if r[-1] is not None:
+                out.append((r[0], py_join(url, r[-1])))
+    return out
+
+
+def spec_reachable(pdocs, root):
+    seen, todo = [root], [root]
+    while todo:
+        u = todo.pop(0)
+        pd = pdocs.get(u)
+        if pd is None:
+            continue
+        for _, v in doc_refs(u, pd):
+            if v not in seen:
+                seen.append(v)
+                todo.append(v)
+    return seen
+
+
+def shadowed(pdocs):
+    """See shadowed_import: some located xsd:import of a collection member
+    names a namespace another member of the same collection has."""
+    for url, pd in pdocs.items():
+        if pd.kind != "W":
+            continue
+        members = []           # (tns, refs, own url or None, base)
+        for t in pd.types:
+            for tns, refs in t:
+                members.append((tns, refs, None, url))
+        for l in pd.imports:
+            v = py_join(url, l)
+            x = pdocs.get(v)
+            if x is not None and x.kind == "X":
+                members.append((x.schema[0], x.schema[1], v, v))
+        for tns, refs, own, base in members:
+            for r in refs:
+                if r[0] == "import" and r[2] is not None and r[1] != tns:
+                    target = py_join(base, r[2])
+                    for tns2, _, own2, _ in members:
+                        if tns2 == r[1] and own2 != target:
+                            return True
+    return False
+
+
+# ---- layouts built to show the known findings ------------------------------
+
+def _simple_types(ns, prefix, k):
+    return ('<xsd:complexType name="Q%d"><xsd:sequence><xsd:element name="v" type="xsd:string"/>'
+            '</xsd:sequence></xsd:complexType>' % k)
+
+
+def quirk_layouts(rng):
+    """One or two layouts per known finding (KNOWN_FINDINGS.json), with the
+    single-document equivalent the property compares against."""
+    out = []
+    NS = "urn:c12:q"
+    nsdecl = 'xmlns:q="%s"' % NS
+    wrap = ('<xsd:element name="fReq"><xsd:complexType><xsd:sequence><xsd:element name="a" type="q:Q1"/>'
+            '</xsd:sequence></xsd:complexType></xsd:element><xsd:element name="fResp"><xsd:complexType>'
+            '<xsd:sequence><xsd:element name="r" type="xsd:int"/></xsd:sequence></xsd:complexType></xsd:element>')
+    q1 = _simple_types(NS, "q", 1)
+    msgs = ('<wsdl:message name="fIn"><wsdl:part name="parameters" element="q:fReq"/></wsdl:message>'
+            '<wsdl:message name="fOut"><wsdl:part name="parameters" element="q:fResp"/></wsdl:message>')
+    ops = [("f", None, None)]
+
+    def single():
+        d = WDoc(HOST + "/single.wsdl")
+        d.types.append([SchemaEl(NS, "qualified", q1 + wrap)])
+        d.body = [msgs, pt_xml(ops), bind_xml(ops), SVC_XML]
+        return d.render(nsdecl)
+
+    # 1. wsdl:import of a schema document in another directory whose own include is relative
+    for ref in ("include", "import"):
+        L = Layout("quirk")
+        r = WDoc(HOST + "/a/r.wsdl")
+        r.imports.append("../b/x.xsd")
+        r.body = [msgs, pt_xml(ops), bind_xml(ops), SVC_XML]
+        x = SchemaEl(NS, "qualified", wrap)
+        x.refs.append(("include", "y.xsd") if ref == "include" else ("import", NS, "y.xsd"))
+        y = SchemaEl(NS, "qualified", q1)
+        L.docs = {r.url: r.render(nsdecl), HOST + "/b/x.xsd": XDoc("", x).render(nsdecl),
+                  HOST + "/b/y.xsd": XDoc("", y).render(nsdecl)}
+        L.root, L.single, L.quirks = r.url, single(), {KEY_RELBASE}
+        L.desc = "quirk relative-base (%s)" % ref
+        out.append(L)
+    # 2. root without types imports a WSDL with types, then a schema document
+    L = Layout("quirk")
+    r = WDoc(HOST + "/a/r.wsdl")
+    r.imports = ["a.wsdl", "x.xsd"]
+    r.body = [msgs, pt_xml(ops), bind_xml(ops), SVC_XML]
+    a = WDoc(HOST + "/a/a.wsdl")
+    a.types.append([SchemaEl(NS, "qualified", q1)])
+    x = SchemaEl(NS, "qualified", wrap)
+    L.docs = {r.url: r.render(nsdecl), a.url: a.render(nsdecl), HOST + "/a/x.xsd": XDoc("", x).render(nsdecl)}
+    L.root, L.single, L.quirks = r.url, single(), {KEY_FOREIGN}
+    L.desc = "quirk foreign-types"
+    out.append(L)
+    # 3. two WSDLs importing each other, the root's inline schema has a relative include
+    L = Layout("quirk")
+    r = WDoc(HOST + "/a/r.wsdl")
+    r.imports = ["../b/w.wsdl"]
+    s = SchemaEl(NS, "qualified", wrap)
+    s.refs.append(("include", "y.xsd"))
+    r.types.append([s])
+    r.body = [msgs, pt_xml(ops), bind_xml(ops), SVC_XML]
+    w = WDoc(HOST + "/b/w.wsdl")
+    w.imports = ["../a/r.wsdl"]
+    y = SchemaEl(NS, "qualified", q1)
+    L.docs = {r.url: r.render(nsdecl), w.url: w.render(nsdecl), HOST + "/a/y.xsd": XDoc("", y).render(nsdecl)}
+    L.root, L.single, L.quirks = r.url, single(), {KEY_CYCLE_INLINE}
+    L.desc = "quirk cycle-inline-built-by-importee"
+    out.append(L)
+    # 4. import cycle: the binding document resolves the root's portType too early
+    L = Layout("quirk")
+    r = WDoc(HOST + "/a/r.wsdl")
+    r.imports = ["b.wsdl", "c.wsdl"]
+    r.body = [pt_xml(ops), SVC_XML]
+    b = WDoc(HOST + "/a/b.wsdl")
+    b.imports = ["r.wsdl"]
+    b.body = [bind_xml(ops)]
+    c = WDoc(HOST + "/a/c.wsdl")
+    c.types.append([SchemaEl(NS, "qualified", q1 + wrap)])
+    c.body = [msgs]
+    L.docs = {r.url: r.render(nsdecl), b.url: b.render(nsdecl), c.url: c.render(nsdecl)}
+    L.root, L.single, L.quirks = r.url, single(), {KEY_CYCLE_EARLY}
+    L.desc = "quirk cycle-early-resolve"
+    out.append(L)
+    for L in out:
+        for u in L.docs:
+            if rng.random() < 0.3:
+                L.in_store.add(u)
+        L.shape = {"n": len(L.docs)}
+    return out
+
+
+# ---------------------------------------------------------------------------
+# scenarios: clean load, k-th fetch failing, retry
+# ---------------------------------------------------------------------------
+
+class Obs(object):
+    __slots__ = ("fresh", "fault", "klass", "events", "dcache", "ocache", "complete", "fired", "fp",
+                 "exc", "fpfull")
+
+
+def _canon_bytes(data):
+    from . import sudsutil
+    return sudsutil.expat_parse(data).canon()
+
+
+def inspect_cache(cache_dir, docs, md5_to_url, is_pickle):
+    """(document URLs cached, wsdl object cached?, every entry complete?)"""
+    urls, ocache, complete = [], False, True
+    if cache_dir is None or not os.path.isdir(cache_dir):
+        return urls, ocache, complete
+    for fn in sorted(os.listdir(cache_dir)):
+        if fn == "version":
+            continue
+        path = os.path.join(cache_dir, fn)
+        if not fn.startswith("suds-"):
+            complete = False
+            continue
+        stem, ext = os.path.splitext(fn[5:])
+        if stem.endswith("-wsdl"):
+            try:
+                with open(path, "rb") as f:
+                    pickle.load(f)
+                ocache = True
+            except Exception:    # noqa
+                ocache = True
+                complete = False
+            continue
+        if not stem.endswith("-document"):
+            complete = False
+            continue
+        url = md5_to_url.get(stem[:-len("-document")])
+        if url is None or url not in docs:
+            complete = False
+            continue
+        urls.append(url)
+        try:
+            with open(path, "rb") as f:
+                data = f.read()
+            if ext == ".px":
+                data = str(pickle.loads(data)).encode("utf-8")
+            if _canon_bytes(data) != _canon_bytes(docs[url]):
+                complete = False
+        except Exception:        # noqa
+            complete = False
+    return urls, ocache, complete
+
+
+class Watchdog(object):
+    """A load that takes longer than `seconds` is stopped (suds never blocks:
+    all sources are in memory)."""
+
+    class Timeout(Exception):
+        pass
+
+    def __init__(self, seconds):
+        self.seconds = seconds
+
+    def __enter__(self):
+        import signal
+
+        def handler(*a):
+            raise Watchdog.Timeout("load did not finish within %ss" % self.seconds)
+        self.old = signal.signal(signal.SIGALRM, handler)
+        signal.setitimer(signal.ITIMER_REAL, self.seconds)
+
+    def __exit__(self, *a):
+        import signal
+        signal.setitimer(signal.ITIMER_REAL, 0)
+        signal.signal(signal.SIGALRM, self.old)
+        return False
+
+
+def run_scenario(L, policy, steps, cache_kind, tmp):
+    """steps: list of (fresh, fault|None).  Returns [Obs]."""
+    import suds.cache
+    from suds.reader import Reader
+    md5 = {}
+    rd = Reader.__new__(Reader)
+    known_urls = set(L.docs)
+    out = []
+    cache_dir = None
+    n = 0
+    for fresh, fault in steps:
+        if fresh or cache_dir is None:
+            n += 1
+            cache_dir = os.path.join(tmp, "c%d" % n)
+            os.makedirs(cache_dir)
+        if cache_kind == "doc" and policy == 0:
+            cache = suds.cache.DocumentCache(location=cache_dir)
+        else:
+            cache = suds.cache.ObjectCache(location=cache_dir)
+        o = Obs()
+        o.fresh, o.fault = fresh, fault
+        try:
+            with Watchdog(20):
+                r = load_client(L.docs, L.in_store, L.root, policy=policy, cache=cache, fault=fault)
+        except Watchdog.Timeout as e:
+            r = LoadResult()
+            r.client, r.exc, r.events, r.fired, r.failed, r.runaway = None, e, [], False, False, True
+        o.exc = r.exc
+        o.klass = r.klass()
+        if r.runaway or isinstance(r.exc, (Watchdog.Timeout, RecursionError)):
+            o.klass = 3
+        o.events = r.events
+        o.fired = r.fired
+        o.fp, o.fpfull = 0, None
+        if r.client is not None:
+            try:
+                with Watchdog(20):
+                    o.fpfull = fingerprint(r.client)
+                o.fp = fp_digest(o.fpfull)
+            except Exception as e:   # noqa
+                o.fpfull = ("fingerprint raises", type(e).__name__, str(e)[:100])
+                o.fp = fp_digest(o.fpfull)
+        for _, u in r.events:
+            known_urls.add(u)
+        for u in known_urls:
+            md5.setdefault(rd.mangle(u, "x")[:-2], u)
+        o.dcache, o.ocache, o.complete = inspect_cache(cache_dir, L.docs, md5,
+                                                       not (cache_kind == "doc" and policy == 0))
+        out.append(o)
+    return out
+
+
+# ---------------------------------------------------------------------------
+# Coq terms
+# ---------------------------------------------------------------------------
+
+class Interner(object):
+    def __init__(self):
+        self.ids = {}
+
+    def __call__(self, x):
+        if x not in self.ids:
+            self.ids[x] = len(self.ids)
+        return self.ids[x]
+
+
+def c_ref(r, nsid):
+    if r[0] == "import":
+        ns = copt(None if r[1] is None else cN(nsid(r[1]) + 1), "N")
+        loc = copt(None if r[2] is None else cstr(r[2]), "str")
+        return "(XImp %s %s)" % (ns, loc)
+    return "(XInc %s)" % cstr(r[1] or "")
+
+
+def c_schema(s, nsid):
+    tns, refs = s
+    return "(mkX %s %s)" % (copt(None if tns is None else cN(nsid(tns) + 1), "N"),
+                            clist([c_ref(r, nsid) for r in refs], "xref"))
+
+
+def c_doc(pd, nsid):
+    if pd.kind == "W":
+        return "(DWsdl %s %s)" % (clist([cstr(l or "") for l in pd.imports], "str"),
+                                  clist([clist([c_schema(s, nsid) for s in t], "xschema") for t in pd.types],
+                                        "list xschema"))
+    if pd.kind == "X":
+        return "(DXsd %s)" % c_schema(pd.schema, nsid)
+    return "DBad"
+
+
+def c_fault(f):
+    if f is None:
+        return "(@None (nat * fkind))"
+    return "(Some (%s, %s))" % (cnat(f[0]), "FRaise" if f[1] == "raise" else "FGarbage")
+
+
+def c_case(L, pdocs, policy, obs, single_fp):
+    urls = Interner()
+    nsid = Interner()
+    urls(L.root)
+    for u in L.docs:
+        urls(u)
+    for o in obs:
+        for _, u in o.events:
+            urls(u)
+    docs = clist(["(%s, (%s, %s))" % (cnat(urls(u)), cbool(u in L.in_store), c_doc(pdocs[u], nsid))
+                  for u in L.docs], "nat * (bool * doc)")
+    locs = []
+    for u, pd in pdocs.items():
+        for l in (pd.imports if pd.kind == "W" else []):
+            locs.append(l)
+        for s in ([x for t in pd.types for x in t] if pd.kind == "W" else [pd.schema] if pd.kind == "X" else []):
+            for r in s[1]:
+                if r[-1] is not None:
+                    locs.append(r[-1])
+    rel = sorted(set(l for l in locs if "://" not in l))
+    absl = sorted(set(l for l in locs if "://" in l))[:1]
+    joins = []
+    for u in L.docs:
+        for l in rel + absl:
+            joins.append("(%s, %s, %s)" % (cnat(urls(u)), cstr(l), cstr(py_join(u, l))))
+    cobs = []
+    for o in obs:
+        cobs.append("(mkObs %s %s %s %s %s %s %s %s %s)" % (
+            cbool(o.fresh), c_fault(o.fault), cN(min(o.klass, 2)),
+            clist(["(%s, %s)" % (cbool(k == "S"), cnat(urls(u))) for k, u in o.events], "bool * nat"),
+            clist([cnat(urls(u)) for u in o.dcache], "nat"), cbool(o.ocache), cbool(o.complete),
+            cbool(o.fired), cN(o.fp)))
+    table = [None] * len(urls.ids)
+    for u, k in urls.ids.items():
+        table[k] = u
+    return "(mkCase %s %s %s %s %s %s %s)" % (
+        clist([cstr(u) for u in table], "str"), docs, cN(policy), cnat(urls(L.root)), cN(single_fp),
+        clist(joins, "nat * str * str"), clist(cobs, "obs"))
+
+
+# ---------------------------------------------------------------------------
+# the check
+# ---------------------------------------------------------------------------
+
+PREDS = ["c12_agrees", "c12_join_agrees", "c12_terminates_ok", "c12_sbt_ok", "c12_reach_ok",
+         "c12_same_client_ok", "c12_atomic_ok", "c12_retry_ok"]
+
+GENERIC = {
+    "c12_sbt_ok": ("C12:transport-before-store", "the transport was asked for a document before (or although) "
+                   "the document store had it"),
+    "c12_reach_ok": ("C12:fetch-of-unreachable-document", "a document that is not reachable from the root "
+                     "WSDL was requested"),
+    "c12_same_client_ok": ("C12:partitioned-client-differs", "loading the partitioned WSDL raises or yields a "
+                           "client that differs from the single-document WSDL's"),
+    "c12_atomic_ok": ("C12:failed-load-leaves-cache-entries", "a load with a failing fetch did not raise, or "
+                      "left an incomplete document / a WSDL object in the cache"),
+    "c12_retry_ok": ("C12:retry-differs-from-clean-load", "the healthy retry after a failed load raises or "
+                     "yields a client that differs from a clean first load"),
+}
+
+
+def layouts_for(ck):
+    """[(Layout, thorough_faults?)] for this tier, from ck.rng only."""
+    rng = ck.rng
+    thorough = ck.tier == "thorough"
+    out = []
+    # every graph on <= 2 documents; on 3 documents all (thorough) or a sample
+    for n in (1, 2, 3):
+        specs = [s for s in graph_specs(n) if graph_ok(*s)]
+        if n == 3 and not thorough:
+            rng.shuffle(specs)
+            specs = specs[:110]
+        for kinds, edges in specs:
+            order = "safe" if rng.random() < 0.8 else "target"
+            out.append(build_graph_layout(rng, kinds, edges, order=order))
+    # partitions of generated interfaces
+    want = 1500 if thorough else 130
+    got = 0
+    while got < want:
+        I = gen_iface(rng)
+        L = gen_partition(rng, I)
+        if L is None:
+            continue
+        out.append(L)
+        got += 1
+    out.extend(quirk_layouts(rng))
+    return out
+
+
+def steps_for(ck, nfetch, policy, idx, clean_ok):
+    steps = [(True, None)]
+    if policy == 0:
+        steps.append((False, None))            # reload from the warm document cache
+    if not clean_ok:
+        return steps
+    kinds = ("raise", "garbage")
+    for k in range(nfetch):
+        if ck.tier == "thorough":
+            ks = kinds
+        else:
+            ks = (kinds[(k + policy + idx) % 2],)
+        for kind in ks:
+            steps.append((True, (k, kind)))
+            steps.append((False, None))
+    return steps
+
+
+def classify(L, pred, obs):
+    """The finding key for a failed spec predicate on layout L."""
+    msgs = " ".join(str(o.exc) for o in obs if o.exc is not None)
+    if L.quirks:
+        if pred == "c12_reach_ok":
+            for k in (KEY_RELBASE, KEY_CYCLE_INLINE):
+                if k in L.quirks:
+                    return k
+        if pred == "c12_same_client_ok":
+            if KEY_CYCLE_EARLY in L.quirks and "not-found" in msgs:
+                return KEY_CYCLE_EARLY
+            if KEY_RELBASE in L.quirks and ("failed" in msgs):
+                return KEY_RELBASE
+            if KEY_CYCLE_INLINE in L.quirks and ("failed" in msgs):
+                return KEY_CYCLE_INLINE
+            if KEY_FOREIGN in L.quirks:
+                return KEY_FOREIGN
+    return GENERIC[pred][0]
+
+
+def run(ck):
+    common.force_repo_path()
+    logging.getLogger("suds").setLevel(logging.CRITICAL)
+    logging.getLogger("suds").addHandler(logging.NullHandler())
+    ck.trusted = [
+        "Coq 8.16.1 kernel + vm_compute (correspondence evaluation); no native_compute",
+        "harness/c12.py: generators, recording DocumentStore/transport, expat-based reading of the generated "
+        "documents into model terms, behavioural fingerprint, cache directory inspection",
+        "modelled, not verified: the XML parser (a document is well-formed or not), urllib's urljoin "
+        "(compared with the model's join on every base/location pair used)",
+    ]
+    ck.notes = [
+        "the model covers which documents are opened, in which order, through which layer, with which memo "
+        "and cache effects; declarations and Definitions.resolve/set_wrapped/add_methods are covered by the "
+        "fingerprint comparison with the single-document client only",
+        "the document store is modelled per URL (the generator uses one scheme per location)",
+        "not generated (suds' behaviour is defensible or out of scope): an xsd:import whose namespace another "
+        "schema of the same WSDL already has (location ignored by Import.__locate; schemaLocation is a hint); "
+        "a WSDL import cycle through a document that also imports itself (terminates, exponential time)",
+    ]
+    proof_ok = ck.prove(THEOREMS)
+    tmp = tempfile.mkdtemp(prefix="c12-", dir=os.environ.get("TMPDIR", "/tmp"))
+    cases, meta = [], []
+    try:
+        layouts = layouts_for(ck)
+        for idx, L in enumerate(layouts):
+            pdocs = {u: parse_doc(d) for u, d in L.docs.items()}
+            rs = load_client({"mem://single.wsdl": L.single}, [], "mem://single.wsdl")
+            if rs.exc is not None:
+                raise RuntimeError("generator bug: the single-document WSDL does not load: %r (%s)"
+                                   % (rs.exc, L.desc))
+            single_fp = fp_digest(fingerprint(rs.client))
+            probe = load_client(L.docs, L.in_store, L.root)
+            nfetch = sum(1 for k, _ in probe.events if k == "S")
+            for policy in (0, 1):
+                steps = steps_for(ck, nfetch, policy, idx, probe.exc is None)
+                sub = os.path.join(tmp, "l%d_%d" % (idx, policy))
+                os.makedirs(sub)
+                obs = run_scenario(L, policy, steps, "doc" if idx % 2 == 0 else "obj", sub)
+                shutil.rmtree(sub, ignore_errors=True)
+                cases.append(c_case(L, pdocs, policy, obs, single_fp))
+                meta.append((L, policy, obs))
+                for o in obs:
+                    ck.seen((L.desc, idx, policy, o.fresh, o.fault), nontrivial=len(L.docs) > 1)
+                    if o.klass == 3:
+                        ck.failing_input("C12:load-does-not-terminate",
+                                         "a document graph makes the load run away (%r)" % (o.exc,),
+                                         dict(L.payload(), policy=policy, fault=o.fault))
+                ck.count("%s/%d docs" % (L.kind, len(L.docs)))
+                ck.count("loads", len(obs))
+                ck.count("fault injections", sum(1 for o in obs if o.fault))
+            for k, v in L.shape.items():
+                if v is True:
+                    ck.count("shape:" + k)
+            if idx % 40 == 0:
+                ck.sample({"layout": L.desc, "documents": sorted(L.docs), "in_store": sorted(L.in_store),
+                           "requests": probe.events[:12], "fetches": nfetch})
+    finally:
+        shutil.rmtree(tmp, ignore_errors=True)
+    res = ck.run_cases("corr", PRE, "case", cases, PREDS, shard=60)
+    model_bad = sorted(set(res["c12_agrees"]) | set(res["c12_join_agrees"]) | set(res["c12_terminates_ok"]))
+    spec_bad = {}
+    for p in PREDS[3:]:
+        for i in res[p]:
+            spec_bad.setdefault(i, []).append(p)
+    for i, preds in sorted(spec_bad.items()):
+        L, policy, obs = meta[i]
+        for p in preds:
+            key = classify(L, p, obs)
+            what = GENERIC[p][1] + " [%s; policy %d]" % (L.desc, policy)
+            ck.failing_input(key, what, dict(L.payload(), policy=policy, predicate=p,
+                                              steps=[(o.fresh, o.fault) for o in obs],
+                                              observed=[(o.klass, repr(o.exc)[:200], o.events) for o in obs][:6]))
+    for i in model_bad:
+        if i in spec_bad:
+            continue
+        L, policy, obs = meta[i]
+        which = [p for p in PREDS[:3] if i in res[p]]
+        ck.unproved("the loader model and suds disagree (%s) on %s, policy %d" % (", ".join(which), L.desc, policy),
+                    dict(L.payload(), policy=policy, predicate=which,
+                         steps=[(o.fresh, o.fault) for o in obs],
+                         observed=[(o.klass, repr(o.exc)[:200], o.events, sorted(o.dcache), o.ocache)
+                                   for o in obs][:8]))
+    if not proof_ok:
+        ck.unproved("coq/C12/Props.v does not check: " + ck.proof_log[-1500:], {"log": ck.proof_log[-4000:]})
+    ck.exhaustive = ck.tier == "thorough"
+    ck.rule = ("layouts: every document graph on <= 2 documents and %s on 3 documents (3 reference kinds, self "
+               "references, cycles), partitions of generated interfaces into 1..6 documents (wsdl:import chain, "
+               "inline / imported / included schema documents, diamonds, cycles, relative and absolute "
+               "locations, 3 directories), layouts for the known findings; each with caching policy 0 and 1: a "
+               "clean load, a warm reload (policy 0), and for every fetch k a load whose k-th fetch raises or "
+               "returns ill-formed bytes followed by a healthy retry (%s).  One evaluation = one client "
+               "construction compared with the model; non-trivial = more than one document."
+               % ("all" if ck.tier == "thorough" else "a sample",
+                  "both fault kinds" if ck.tier == "thorough" else "fault kinds alternating"))
+    return None
+
+
+def replay(ck, payload):
+    common.force_repo_path()
+    logging.getLogger("suds").setLevel(logging.CRITICAL)
+    L = layout_from_payload(payload)
+    policy = payload.get("policy", 0)
+    rs = load_client({"mem://single.wsdl": L.single}, [], "mem://single.wsdl")
+    fs = fingerprint(rs.client) if rs.exc is None else None
+    tmp = tempfile.mkdtemp(prefix="c12r-")
+    try:
+        steps = [tuple(s) if s[1] is None else (s[0], tuple(s[1])) for s in payload.get("steps", [(True, None)])]
+        obs = run_scenario(L, policy, steps, "doc", tmp)
+    finally:
+        shutil.rmtree(tmp, ignore_errors=True)
+    print("layout:", L.desc, "root", L.root)
+    for o in obs:
+        print(" load fresh=%s fault=%s -> class %d %r" % (o.fresh, o.fault, o.klass, o.exc))
+        print("   requests:", o.events)
+        print("   cached documents:", sorted(o.dcache), "wsdl object:", o.ocache, "complete:", o.complete)
+        if o.fpfull is not None and fs is not None:
+            print("   same client as the single-document WSDL:", o.fpfull == fs)
+    return 0
